@@ -32,6 +32,10 @@ CHECKS = {
    technique='symbolic execution of the real generated Python function (all compile configurations) on z3 terms inside NumPy object arrays vs an independent node-wise denotational interpreter; per-element SMT equivalence; replay on real NumPy',
    text='For every program / nested tuple of the bounded family and the compile configurations (_simplify x _optimize x cache_const_intermediates x stats; all 16 on the corpus and on shared-subterm tuples, default + 2 sampled per program in quick, all in thorough) the generated function (run twice when caching) returns the structure, shapes, kinds and - for ALL argument values - the values the expression denotes according to an independent interpreter.',
    note='Trusted: z3, SArray model of NumPy, the interpreter (symx/interp.py).  Outside: the text of log/statistics output, scripts generated under maxprocs>1 and real multi-process runs (C16), programs outside the family, NaN/Inf, int64 overflow.'),
+ 'C03': dict(level='translation_validation', design='4/C03',
+   technique='symbolic execution of one cached generated function over 3-call histories with distinct z3-symbolic argument sets and symbolic user writes into returned arrays; per-call, per-element SMT equivalence with an independent interpreter',
+   text='For every program of the family and call pattern (all arguments change / one changes / same dict reused) the k-th result of a function compiled once with constant caching equals the denotation of the k-th arguments for ALL argument values and ALL values a user may have written into previously returned writable arrays; argument arrays are element-identical before and after each call.',
+   note='Histories of 3 calls (the generated script has two states: first run / rerun); longer histories, mesh-level memo tables (Basis._arg_*, topology._locate, System caches) are outside the claim.  A returned array that aliases an argument array is allowed: the reference is the argument value at call time.'),
 }
 
 NOT_APPLICABLE = {
